@@ -55,6 +55,11 @@ type Plan struct {
 	Calls  []AsconCall `json:"calls,omitempty"`
 	Exp    []Op        `json:"exp,omitempty"` // expander: k=expand, N=len_in_bytes, Obj=msg length
 	Perm   []Op        `json:"perm,omitempty"`
+	// Sweep: instead of one history, every message length From..To-1 (at most 512 lengths)
+	// through a fresh object AND through the package's one-shot function, both judged by
+	// the reference
+	Sweep    bool `json:"sweep,omitempty"`
+	From, To int  `json:",omitempty"`
 }
 
 var streamFams = []string{"sha3-224", "sha3-256", "sha3-384", "sha3-512", "shake128", "shake256", "turboshake128", "turboshake256",
@@ -344,6 +349,40 @@ func execStream(p *Plan, run *core.Run) {
 	if p.Fam == "k12" {
 		comp = fmt.Sprintf("stream[k12,lanes=%d]", p.Param)
 	}
+	if p.Sweep {
+		if p.From < 0 || p.To-p.From > 512 || p.To > 100000 {
+			run.Bad("sweep")
+			return
+		}
+		msg := core.NewPRNG(p.Seed).Bytes(p.To)
+		for n := p.From; n < p.To; n++ {
+			o, _, _ := newStream(p)
+			m := msg[:n:n]
+			o.Write(m)
+			got := o.Sum()
+			outLen := 0
+			if got == nil {
+				outLen = 64 + n%7
+				got = o.Read(outLen)
+			}
+			want := ref(m, outLen)
+			run.Tick(1)
+			if !bytes.Equal(got, want) {
+				run.Violate(comp, "digest-differs-from-specification", "a fresh object given %d bytes in one Write returns %s, the reference %s", n, short(got), short(want))
+				return
+			}
+			if one := oneShot(p, m, outLen); one != nil {
+				run.Fault("history:one-shot-function-next-to-streaming-object")
+				if !bytes.Equal(one, want) {
+					run.Violate(comp+".one-shot", "digest-differs-from-specification", "the one-shot function on %d bytes returns %s; the streaming object and the reference give %s", n, short(one), short(want))
+					return
+				}
+			}
+		}
+		run.Event("obj", "sweep", p.From, p.To)
+		run.T(p.Fam, "sweep")
+		return
+	}
 	objs := []stream{s0}
 	models := []*objModel{{}}
 	data := core.NewPRNG(p.Seed)
@@ -447,6 +486,55 @@ func execStream(p *Plan, run *core.Run) {
 			return
 		}
 	}
+	// what was absorbed piecewise in this history, given to the one-shot function in one piece
+	for _, m := range models {
+		outLen := 0
+		if _, fixed := s0.(*shimStream); !fixed || !s0.(*shimStream).fixed {
+			outLen = 32 + m.squeezed%67
+		}
+		if one := oneShot(p, m.absorbed, outLen); one != nil {
+			run.Fault("history:one-shot-function-next-to-streaming-object")
+			if want := ref(m.absorbed, outLen); !bytes.Equal(one, want) {
+				run.Violate(comp+".one-shot", "digest-differs-from-specification", "the one-shot function on the %d bytes absorbed in this history returns %s, the reference %s", len(m.absorbed), short(one), short(want))
+				return
+			}
+		}
+	}
+}
+
+// oneShot: the package-level function of the family, if it has one (nil otherwise).
+func oneShot(p *Plan, m []byte, n int) []byte {
+	switch p.Fam {
+	case "sha3-224":
+		d := verifshim.Sum224(m)
+		return d[:]
+	case "sha3-256":
+		d := verifshim.Sum256(m)
+		return d[:]
+	case "sha3-384":
+		d := verifshim.Sum384(m)
+		return d[:]
+	case "sha3-512":
+		d := verifshim.Sum512(m)
+		return d[:]
+	case "shake128":
+		out := make([]byte, n)
+		verifshim.ShakeSum128(out, m)
+		return out
+	case "shake256":
+		out := make([]byte, n)
+		verifshim.ShakeSum256(out, m)
+		return out
+	case "turboshake128":
+		out := make([]byte, n)
+		verifshim.TurboShakeSum128(out, m, byte(p.Param))
+		return out
+	case "turboshake256":
+		out := make([]byte, n)
+		verifshim.TurboShakeSum256(out, m, byte(p.Param))
+		return out
+	}
+	return nil
 }
 
 func short(b []byte) string {
@@ -771,6 +859,24 @@ func exec(planJSON []byte, run *core.Run) {
 // one piece, byte by byte around the boundary, and in 8192-byte pieces.
 func directed(tier string) []any {
 	var out []any
+	// every message length from 0 to two blocks and a bit, for every family with a rate
+	for _, fam := range streamFams {
+		param := 0
+		switch fam {
+		case "turboshake128", "turboshake256":
+			param = 0x1f
+		case "k12":
+			param = 1
+		}
+		to := 2*rateOf(fam) + 3
+		for from := 0; from < to; from += 128 {
+			end := from + 128
+			if end > to {
+				end = to
+			}
+			out = append(out, &Plan{Fam: fam, Param: param, Seed: uint64(7 + from), Sweep: true, From: from, To: end})
+		}
+	}
 	for _, lanes := range []int{1, 2, 4} {
 		for _, total := range []int{8191, 8192, 8193, 2*8192 - 1, 2 * 8192, 2*8192 + 1, 3 * 8192, 4*8192 + 1, 5 * 8192, 8*8192 + 1, 9*8192 - 1} {
 			for _, piece := range []int{total, 8192, 8191, 4096, 7919} {
